@@ -299,6 +299,40 @@ class Builder:
         self.lit("{v}}")
         self.expect.append(("Entry", t, k, [(fk, v)]))
 
+    def idfield(self, which):
+        """an entry with a FIELD spelled like one of the pseudo keys of Entry's mapping interface (ID / ENTRYTYPE)"""
+        self.lit("@")
+        t = (len(self.cs), len(self.cs) + 2)
+        self.lit("aa{")
+        k = self.hole("K", 1, K_SIGMA)
+        self.lit(", ")
+        fk = (len(self.cs), len(self.cs) + len(which))
+        self.lit(which)
+        self.lit(" = ")
+        v = self.hole("V", 3, V_SIGMA)
+        self.lit(", ")
+        bk = (len(self.cs), len(self.cs) + 1)
+        self.lit("b = ")
+        bv = (len(self.cs), len(self.cs) + 3)
+        self.lit("{w}}")
+        self.expect.append(("Entry", t, k, [(fk, v), (bk, bv)]))
+
+    def glued(self, fl):
+        """free text directly followed by a block (no white space in between); the free text may end in backslashes,
+        which do not escape an '@'"""
+        f = self.hole("F", fl, "x\\%")
+        self.lit("@")
+        t = (len(self.cs), len(self.cs) + 2)
+        self.lit("aa{")
+        k = (len(self.cs), len(self.cs) + 1)
+        self.lit("k, ")
+        fk = (len(self.cs), len(self.cs) + 1)
+        self.lit("f = ")
+        v = (len(self.cs), len(self.cs) + 3)
+        self.lit("{v}}")
+        self.expect.append(("ImplicitComment", f))
+        self.expect.append(("Entry", t, k, [(fk, v)]))
+
     def string(self, kl=1, vl=2, wl=1, hw=0):
         self.lit("@")
         self.hole("S", 0, "")
